@@ -32,6 +32,27 @@ CHECKS = {
         "with the default loader's documented ones (folding of quoted strings, dash + line end + following white "
         "space removed, naive -> UTC). Same bounds as C01.",
    ref='5 (C02)', technique='symbolic execution (symx) of encoder + default loader on a symbolic leaf; z3; bounded'),
+ 'C05': dict(
+   text="Bounded symbolic execution of the real parsers (PVL, ODL, PDS3 configurations and the default loader) driven "
+        "through their public lexer_fn parameter by a SYMBOLIC TOKEN STREAM: a generator following the documented "
+        "send/throw protocol yields, each time the parser pulls, a real Token chosen lazily by a solver variable from "
+        "a 19-lexeme vocabulary (names, '=', integer, quoted string, ';', brackets, comma, units, comment, the block "
+        "keywords, END) or end-of-stream; positions never pulled stay unconstrained. Every stream of at most 6 "
+        "(quick) / 8 (thorough) tokens. Oracle: an independent recogniser/evaluator of the statement grammar written "
+        "from the Blue Book / ODL BNF (no pvl code), extended for the default loader by exactly the missing-value "
+        "rule. Assertion: a module is returned only if the reference accepts everything pulled up to END / end of "
+        "stream and the module equals the reference's. One known finding (D35) is listed and its class skipped. "
+        "Outside: damage below token level (unterminated quotes/comments: lexer states, C06 char level), longer streams.",
+   ref='5 (C05)', technique='symbolic execution (symx) of the parsers over a lazily chosen symbolic token stream vs an independent recogniser; z3'),
+ 'C06': dict(
+   text="Bounded symbolic execution. (i) Character level: pvl.loads(s, ...) for a FULLY symbolic text s of every "
+        "length 0-3 (quick; default loader 0-2) / 0-4 (0-3) over the dialect's whole alphabet (latin-1 / ASCII / "
+        "'omni'), five loader configurations: the outcome is a module, LexerError or ParseError. (ii) Token level: the "
+        "C05 stream harness with k <= 5 / 7 tokens: no other exception type escapes, and the number of generator "
+        "operations on a path stays within 40*(k+2) (a progress measure; termination itself is not provable by "
+        "bounded execution - a path exceeding the measure or the per-path wall clock is reported). Outside: longer "
+        "inputs, recursion-depth exhaustion on deep nesting, mutation of real label files (a fuzzing technique).",
+   ref='5 (C06)', technique='symbolic execution (symx) of lexer+parsers on fully symbolic short texts and symbolic token streams; z3'),
  'C08': dict(
    text="Bounded symbolic execution of the real default loader on 12 label templates (top level, inside blocks, first/"
         "last in a block, before a block, adjacent gaps, with delimiters, with/without END, up to 5 assignments): "
